@@ -375,7 +375,7 @@ pub(crate) fn construct_reset_key(private_key: &[u8; 32]) -> ring::hmac::Key {
     ring::hmac::Key::new(ring::hmac::HMAC_SHA256, &reset_key)
 }
 
-#[cfg(feature = "verif-hooks")]
+#[cfg(feature = "verif-hooks-crypto")]
 pub(crate) mod verif_hooks {
     //! Thin wrappers for the external verification harness; they only call the private functions above.
     use super::*;
